@@ -32,6 +32,6 @@ func init() {
 			"fees reach the consumer's fee collector through the bank call the ante handler makes; the reward transfer runs through the real ibc-go transfer keeper (escrow, voucher mint) and the provider's transfer middleware; packet relay and channel handshakes through the Net shim",
 			"the consumer is honest (the reward memo carries its own consumer id)",
 		}, commonAssumptions...), Budget: budget, Units: us,
-			MustSee: []string{"rewards-sent", "rewards-credited", "payout", "in-set-but-not-yet-eligible", "credit-in-disallowed-denom-kept", "due-but-channel-closed"}}
+			MustSee: []string{"rewards-sent", "rewards-credited", "payout", "in-set-but-not-yet-eligible", "credit-in-disallowed-denom-kept", "due-but-channel-closed", "payout-with-nobody-eligible"}}
 	})
 }
